@@ -74,6 +74,8 @@ type RunIn struct {
 	// Budget is the allowed-disruptions entry of every NodePool (the budget arithmetic itself is C05's)
 	Budget int    `json:"budget"`
 	Churn  *Churn `json:"churn"`
+	// Expect (corpus witnesses): the verdict validation must reach, "released" | "rejected:scheduling" | …; "" = any
+	Expect string `json:"expect,omitempty"`
 }
 
 type CandOut struct {
@@ -120,4 +122,11 @@ type RunOut struct {
 	// Sims: for `single` with no command, the simulation of every passed candidate (so that the model can
 	// say that none of them yields a command)
 	Churned bool `json:"churned"`
+	// Verdict (only when Churned, i.e. a command reached validation and the change was delivered during the wait):
+	// "released" or "rejected:<class>" with the class validation reported (scheduling | churn | budget | unknown)
+	Verdict string `json:"verdict,omitempty"`
+	// Pre: the command validation REJECTED, recomputed by computeConsolidation (+ filterOutSameInstanceType for the
+	// multi-node method) for the rejected command's candidates on an identical fresh world; nil when it was released
+	// (then Cmd is that command) or could not be recomputed
+	Pre *CmdOut `json:"pre,omitempty"`
 }
